@@ -51,3 +51,26 @@ func (c *TLSConn) HandshakeContext(ctx context.Context) error {
 	defer c.wmu.Unlock()
 	return c.Conn.HandshakeContext(ctx)
 }
+
+// TLSListener replaces http.Server.ServeTLS's internal tls.NewListener in instrumented code:
+// accepted connections are TLSConn wrappers, so that concurrent readers or writers of one
+// connection contend on simulator mutexes instead of crypto/tls's own.
+func TLSListener(l net.Listener, cfg *tls.Config) net.Listener {
+	if cfg == nil {
+		cfg = &tls.Config{}
+	}
+	return &tlsListener{Listener: l, cfg: cfg}
+}
+
+type tlsListener struct {
+	net.Listener
+	cfg *tls.Config
+}
+
+func (l *tlsListener) Accept() (net.Conn, error) {
+	c, err := l.Listener.Accept()
+	if err != nil {
+		return nil, err
+	}
+	return TLSServer(c, l.cfg), nil
+}
